@@ -117,6 +117,7 @@ type contractRun struct {
 	lstakes   []*definition.LiquidityStakeEntry
 	lastTuples string
 	unwraps   []*definition.UnwrapTokenRequest
+	runBal    map[types.Address]map[types.ZenonTokenStandard]*big.Int // balance of a contract just before the receive being monitored (last momentum's balance + the blocks since)
 	revoked   map[string]bool // bridge: unwrap requests revoked by the administrator (from confirmed receives)
 	burned    bool // the spork address burned ZNN of the liquidity contract while ZNN stakes were open
 	deadIds   []types.Hash // ids of entries that were released (for repeated attempts)
@@ -455,6 +456,12 @@ func (r *contractRun) onMomentum(dm *nom.DetailedMomentum) {
 			r.fail("contract receive %s/%d has status %s", addrName(b.Address), b.Height, status)
 		}
 		r.monitorReceive(b, send, d, status, ack, h)
+		rb := r.runningBalance(b.Address, send.TokenStandard)
+		rb.Add(rb, send.Amount)
+		for _, dd := range b.DescendantBlocks {
+			x := r.runningBalance(b.Address, dd.TokenStandard)
+			x.Sub(x, dd.Amount)
+		}
 	}
 	c.Emit("K-mom %d %d | ok", h, dm.Momentum.Timestamp.Unix())
 	r.compareState(h)
@@ -792,7 +799,7 @@ func (r *contractRun) monitorReceive(b, send *nom.AccountBlock, d *decoded, stat
 					r.c.Hit("refusal-bridge.Redeem-no-pair")
 				case ack.Height-lk.matureH < uint64(tp.RedeemDelay):
 					r.c.Hit("refusal-bridge.Redeem-before-delay")
-				case !tp.Owned && balanceAt(r.n, types.BridgeContract, tp.TokenStandard).Cmp(lk.amount) < 0:
+				case !tp.Owned && r.runningBalance(types.BridgeContract, tp.TokenStandard).Cmp(lk.amount) < 0:
 					r.c.Hit("refusal-bridge.Redeem-bridge-balance-too-low")
 				case types.IsEmbeddedAddress(lk.entitled):
 					r.c.Hit("refusal-bridge.Redeem-recipient-is-a-contract")
@@ -965,6 +972,16 @@ func (r *contractRun) monitorReceive(b, send *nom.AccountBlock, d *decoded, stat
 			}
 		}
 	}
+}
+
+func (r *contractRun) runningBalance(a types.Address, t types.ZenonTokenStandard) *big.Int {
+	if r.runBal[a] == nil {
+		r.runBal[a] = map[types.ZenonTokenStandard]*big.Int{}
+	}
+	if r.runBal[a][t] == nil {
+		r.runBal[a][t] = new(big.Int)
+	}
+	return r.runBal[a][t]
 }
 
 func balanceAt(n *Node, a types.Address, t types.ZenonTokenStandard) *big.Int {
@@ -1397,6 +1414,10 @@ func (r *contractRun) compareState(h uint64) {
 			if full(a) {
 				c.Emit("K-bal %s %s | %s", cname(a), tokName(t), amt(bal))
 			}
+			if rb := r.runningBalance(a, t); r.dumped && rb.Cmp(bal) != 0 {
+				r.fail("balance: contract %s holds %s %s, its receives and descendant sends since genesis add up to %s", cname(a), amt(bal), tokName(t), amt(rb))
+			}
+			r.runningBalance(a, t).Set(bal)
 			o := owed[a].sums[t]
 			if o == nil {
 				o = new(big.Int)
@@ -1456,7 +1477,7 @@ func contractHistory(c *Ctx, id int) {
 
 	n := NewNode()
 	defer n.Stop()
-	r := &contractRun{c: c, n: n, id: id, p: p, locks: map[string]*lockRec{}, qsrLog: map[string]*big.Int{}, preimages: map[types.Hash][]byte{}, proxy: map[types.Address]bool{}, revoked: map[string]bool{},
+	r := &contractRun{c: c, n: n, id: id, p: p, locks: map[string]*lockRec{}, qsrLog: map[string]*big.Int{}, preimages: map[types.Hash][]byte{}, proxy: map[types.Address]bool{}, revoked: map[string]bool{}, runBal: map[types.Address]map[types.ZenonTokenStandard]*big.Int{},
 		touched: map[types.Address]bool{}, tokens: map[types.ZenonTokenStandard]bool{types.ZnnTokenStandard: true, types.QsrTokenStandard: true}}
 
 	c.Emit("K-reset")
@@ -2171,6 +2192,9 @@ func contractHistory(c *Ctx, id int) {
 	unwrapSeq := 0
 	genBridge := func() {
 		y := c.R.Intn(100)
+		if len(r.unwraps) == 0 && y >= 55 && c.R.Intn(5) != 0 {
+			y = 20 + c.R.Intn(35) // nothing to redeem yet: register a request
+		}
 		switch {
 		case y < 20: // WrapToken: funds the bridge (foreign-owned tokens stay in its balance, bridge-owned ones are burned)
 			tok := []types.ZenonTokenStandard{types.ZnnTokenStandard, types.ZnnTokenStandard, types.QsrTokenStandard}[c.R.Intn(3)]
@@ -2431,23 +2455,19 @@ func contractHistory(c *Ctx, id int) {
 			}
 			continue
 		}
+		if withLiq && c.R.Intn(100) < 30 {
+			genLiquidity()
+			continue
+		}
+		if withBridge && c.R.Intn(100) < 35 {
+			genBridge()
+			continue
+		}
 		switch {
 		case x < 14:
-			if withLiq && c.R.Intn(2) == 0 {
-				genLiquidity()
-			} else if withBridge && c.R.Intn(2) == 0 {
-				genBridge()
-			} else {
-				genPlasma()
-			}
+			genPlasma()
 		case x < 28:
-			if withLiq && c.R.Intn(2) == 0 {
-				genLiquidity()
-			} else if withBridge && c.R.Intn(2) == 0 {
-				genBridge()
-			} else {
-				genStake()
-			}
+			genStake()
 		case x < 46:
 			if withHtlc {
 				genHtlc()
